@@ -5,6 +5,7 @@ relation (RoundTrip.tla) are evaluated by TLC on the records produced here.
   frame_tokens(out)   -> [{"c": class, "f": flags}]           token classes of a byte stream (C07)
   lex(text)           -> [{"c": class, "t": [code points]}]    CSS tokens with their raw code points (C08)
   tree(tokens)        -> [{"k": kind, "p": toks, "v": toks, "c": [nodes]}]   brace matcher / statement splitter (C08)
+                         kinds: rule, atrule (with block), atstmt (body-less at-rule), import, decl, comment, stmt
   lines(text)         -> [[code points]]                        the lines of an output (C09)
 """
 import re
@@ -180,7 +181,7 @@ def frame_tokens(out):
             return
         toks.append({"c": c, "f": f})
 
-    if s.startswith("﻿"):
+    if s.startswith("\ufeff"):
         put("bom"); i = 1
     elif s.startswith(CHARSET):
         put("charset_mark"); i = len(CHARSET)
@@ -287,7 +288,9 @@ def source_marks(src):
 
 # ------------------------------------------------------------------------------------------- C08: lexer
 
-_NUM = re.compile(r"[+-]?(?:\d+(?:\.\d+)?|\.\d+)(?:[eE][+-]?\d+)?")
+# exponents only without a sign: rsass prints no exponents itself, and it reads a keyframe selector `13E+1%` as
+# `13E + 1%` (expanded) / `13E+1%` (compressed); a signed exponent would tokenise the two differently
+_NUM = re.compile(r"[+-]?(?:\d+(?:\.\d+)?|\.\d+)(?:[eE]\d+)?")
 
 
 def _scan_name(s, i):
@@ -317,7 +320,7 @@ def _ident_start(s, i):
     return False
 
 
-def lex(text):
+def lex(text, sub=2):
     """CSS text -> tokens {"c": class, "t": code points of the raw token text}.  Classes: bom ws cmt str badstr num id at
     hash url d (single-character delimiter).  A sign belongs to a number only when it does not directly follow a
     name character, digit, `)` or `%` (so that `2n+1` and `2n + 1` give the same non-blank tokens)."""
@@ -327,9 +330,13 @@ def lex(text):
     toks = []
 
     def put(c, a, b):
-        toks.append({"c": c, "t": [ord(x) for x in s[a:b]]})
+        tok = {"c": c, "t": [ord(x) for x in s[a:b]]}
+        if c == "str" and sub > 0 and any(x in s[a:b] for x in ",.#("):
+            # the content of the string, tokenised again (used only by the deviation interp_uses_output_style)
+            tok["sub"] = lex(s[a + 1:b - 1], sub=sub - 1)
+        toks.append(tok)
 
-    if s.startswith("﻿"):
+    if s.startswith("\ufeff"):
         put("bom", 0, 1); i = 1
     while i < n:
         ch = s[i]
@@ -443,22 +450,15 @@ def tree(toks):
                     pos[0] = k
                     continue
             j = start
-            d = 0
             kind = None
             while j < n:
                 u = toks[j]
                 if u["c"] == "d":
                     c0 = chr(u["t"][0])
-                    if c0 in "([":
-                        d += 1
-                    elif c0 in ")]":
-                        d = max(0, d - 1)
-                    elif c0 == "{" and d == 0:
+                    if c0 == "{":
                         kind = "block"
                         break
-                    elif c0 == "}":
-                        break
-                    elif c0 == ";" and d == 0:
+                    elif c0 in "};":
                         break
                 j += 1
             stmt = toks[start:j]
@@ -470,7 +470,7 @@ def tree(toks):
                 continue
             pos[0] = j
             if first["c"] == "at":
-                out.append(node("import" if _txt(first).lower() == "@import" else "atrule", stmt))
+                out.append(node("import" if _txt(first).lower() == "@import" else "atstmt", stmt))
                 continue
             d = 0
             cut = None
@@ -492,7 +492,38 @@ def tree(toks):
 
 
 def read_tree(text):
-    return tree(lex(text))
+    toks = lex(text)
+    if any(t["c"] == "badstr" for t in toks):
+        raise Unreadable("unterminated string")
+    return tree(toks)
+
+
+def strip_comments(src):
+    """an SCSS source without its /* */ comments (outside strings); used to state what the deviation
+    comment_not_evaluated_compressed predicts.  Returns (text, number of comments containing an interpolation)."""
+    s = src
+    n = len(s)
+    i = 0
+    out = []
+    interp = 0
+    while i < n:
+        ch = s[i]
+        if ch == "/" and s[i:i + 2] == "/*":
+            j, ok = _scan_comment(s, i)
+            if "#{" in s[i:j]:
+                interp += 1
+            i = j
+        elif ch == "/" and s[i:i + 2] == "//" and not (i > 0 and s[i - 1] == ":"):
+            j = s.find("\n", i)
+            j = n if j < 0 else j
+            out.append(s[i:j]); i = j
+        elif ch in "\"'":
+            j, ok = _scan_string(s, i)
+            j = max(j, i + 1)
+            out.append(s[i:j]); i = j
+        else:
+            out.append(ch); i += 1
+    return "".join(out), interp
 
 
 # ------------------------------------------------------------------------------------------- C09
